@@ -109,6 +109,16 @@ def gen(rng, tier):
         if limit < (1 << 26):
             kind = "alloc-limit"
         out.append(("pb %d %s" % (limit, ";".join(ops)), {"kind": kind}))
+    # small scope, exhaustively: every sequence of up to 3 (quick) / 4 (thorough) operations from a fixed alphabet that
+    # hits the capacity boundaries of the initial 32-byte buffer
+    import itertools
+    alpha = ["A-", "A41", "A" + "42" * 30, "A" + "43" * 31, "A" + "44" * 32, "S-1,65,1", "S-1,0,31", "S0,66,32", "S31,67,1", "S32,68,1",
+             "S5,69,0", "F" + "45" * 127, "F" + "46" * 128, "G470048", "R", "N494a,1", "X7"]
+    for ln in range(1, 4 if tier == "quick" else 5):
+        for seq in itertools.product(alpha, repeat=ln):
+            if any(o.startswith("X") and (i == 0 or not seq[i - 1].startswith("A")) for i, o in enumerate(seq)):
+                continue      # X reads the buffer as a C string: only right after an append
+            out.append(("pb %d %s" % (1 << 26, ";".join(seq)), {"kind": "small-scope"}))
     # two threads printing into their own buffers at the same time: sprintbuf keeps no shared state
     for nthr in ([20000, 100000] if tier == "quick" else [20000, 100000, 400000, 400000]):
         out.append(("pb %d A6162;T%d;A63" % (1 << 26, nthr), {"kind": "threads"}))
